@@ -7,7 +7,8 @@ from sim import devices
 from sim.canon import Log
 from sim.catalogue import RECIPES, NAMES, public_view_constructors
 from sim.core import outcome, quarantined, draw_config
-from sim.gen import gen_table
+from sim.canon import enc_table
+from sim.gen import gen_table, gen_sorted_table
 from sim.loader import load_petl
 from sim.sched import Sched, Violation, gen_schedule, norm_schedule
 from sim.viewcase import build, solo_reference, is_items, shrink_common
@@ -96,7 +97,10 @@ def gen_case(rng, tier, g):
     tables = []
     nf = rng.randint(3, 5) if (rec.rect or rng.random() < 0.6) else None
     for _ in range(max(rec.nsrc, 1)):
-        if profile == 'csvsafe':
+        if profile == 'sorted':
+            t = enc_table(gen_sorted_table(rng.randint(1, maxrows), 5,
+                                           stride=len(tables) + 1))
+        elif profile == 'csvsafe':
             t = gen_table(rng, maxrows, profile='text', ragged=False)
         elif profile == 'containers':
             t = gen_table(rng, maxrows, profile='containers', ragged=False,
